@@ -1715,7 +1715,9 @@ func (p *Parser) parseBooleanExpression(single bool, negated bool, scriptName st
 		if p.curToken.Type != token.RPAREN {
 			return nil, nil, NewRangeParseError(openToken, p.curToken, "missing closing ')' for nested boolean expression")
 		}
-		if p.peekTokenIs(token.AND) || p.peekTokenIs(token.OR) {
+		// As the single right operand of '&&', a nested expression must leave the
+		// rest of the level to the caller, like a leaf does.
+		if !single && (p.peekTokenIs(token.AND) || p.peekTokenIs(token.OR)) {
 			p.nextToken()
 			rightExpression, rightImpData, err := p.parseRightSideExpression(nestedExpression, single, negated, scriptName)
 			if err != nil {
@@ -1780,15 +1782,20 @@ func (p *Parser) parseRightSideExpression(left ast.BooleanExpression, single boo
 
 	if p.curToken.Type == token.AND {
 		operator := curTokenType
-		right, expressionImpData, err := p.parseBooleanExpression(true, negated, scriptName)
-		if err != nil {
-			return nil, nil, err
-		}
-		impData.add(expressionImpData)
-		grouped := &ast.BinaryExpression{
-			Left:     left,
-			Operator: operator,
-			Right:    right,
+		// '&&' binds tighter than '||': group the whole run of '&&' operands
+		// before looking at what follows it.
+		grouped := left
+		for p.curToken.Type == token.AND {
+			right, expressionImpData, err := p.parseBooleanExpression(true, negated, scriptName)
+			if err != nil {
+				return nil, nil, err
+			}
+			impData.add(expressionImpData)
+			grouped = &ast.BinaryExpression{
+				Left:     grouped,
+				Operator: operator,
+				Right:    right,
+			}
 		}
 		if p.curToken.Literal == token.RPAREN {
 			return grouped, impData, nil
